@@ -124,10 +124,10 @@ class VecMachine(Machine):
             return NotImplemented
         if k == 'MCall':
             o = self.ev(c['obj'])
-            if isinstance(o, It) and n in ('getPriorityOrDefault', 'getPosition'):
+            if isinstance(o, It) and n in ('getPriorityOrDefault', 'getPosition', 'getMatchScore'):
                 o = o.vec.items[o.i]
             if isinstance(o, Pat):
-                if n == 'getPriorityOrDefault':
+                if n in ('getPriorityOrDefault', 'getMatchScore'):
                     return o.prio
                 if n == 'getPosition':
                     return o.pos
